@@ -382,3 +382,64 @@ def run(ctx):
             continue
         nd += dispatch_coverage(ctx, "R10.5", p.func(q), DISTS)
     ctx.floor("R10.5", "dispatch_chains", nd, 4)
+
+    # ------------------------------------------------------------ R10.7 rounding onto the step grid
+    ctx.rule("R10.7", "wherever a sampler or the search-space transform rounds a number onto a step grid, the grid is anchored at the lower bound: "
+             "low + round((x - low) / step) * step - rounding to multiples of step leaves values off the grid whenever low is not a multiple of step")
+    n_round = 0
+    ROUNDERS = {"round", "np.round", "numpy.round", "np.rint", "np.floor", "np.ceil", "math.floor", "math.ceil", "np.around"}
+    for f in p.iter_funcs(("optuna.samplers", "optuna._transform", "optuna._gp", "optuna.trial")):
+        pm = parent_map(f.node)
+        for x in own_nodes(f.node):
+            if not (isinstance(x, ast.BinOp) and isinstance(x.op, ast.Mult)):
+                continue
+            for rnd, stp in ((x.left, x.right), (x.right, x.left)):
+                if not (isinstance(stp, ast.Attribute) and stp.attr == "step"):
+                    continue
+                if not (isinstance(rnd, ast.Call) and (dotted(rnd.func) or "") in ROUNDERS and rnd.args):
+                    continue
+                q = rnd.args[0]
+                if not (isinstance(q, ast.BinOp) and isinstance(q.op, ast.Div) and norm(q.right) == norm(stp)):
+                    continue
+                n_round += 1
+                owner = norm(stp.value)
+                low = owner + ".low"
+                shifted = isinstance(q.left, ast.BinOp) and isinstance(q.left.op, ast.Sub) and norm(q.left.right) == low
+                par = pm.get(id(x))
+                added = isinstance(par, ast.BinOp) and isinstance(par.op, ast.Add) and low in (norm(par.left), norm(par.right))
+                ctx.check(shifted and added, "R10.7", f.short, f"grid-anchored-at-low:{owner}",
+                          message=f"{f.name} rounds with `{norm(par if added else x)[:80]}`: the result is a multiple of {owner}.step, not a point of the grid "
+                                  f"{low} + k*step - suggest_int('a', 3, 21, step=6) can return 12, which the distribution does not contain",
+                          how=f"{low} + round((x - {low}) / {owner}.step) * {owner}.step", where=where(f, x))
+    ctx.floor("R10.7", "step_rounding_sites", n_round, 4)
+
+    # ------------------------------------------------------------ R10.8 TPE samples are clipped into the domain
+    ctx.rule("R10.8", "TPE: what _MixtureOfProductDistribution.sample hands back for a numerical parameter is np.clip(<truncated-normal sample>, d.low, d.high): "
+             "the inverse CDF in _truncnorm bisects within +-100 sigma only, so with kernel centres far outside the (new) domain the raw sample is mu -+ 100 sigma")
+    sf = p.func("optuna.samplers._tpe.probability_distributions._MixtureOfProductDistribution.sample")
+    sdefs = {}
+    for n in own_nodes(sf.node):
+        if isinstance(n, ast.Assign) and len(n.targets) == 1 and isinstance(n.targets[0], ast.Name):
+            sdefs.setdefault(n.targets[0].id, []).append(n.value)
+
+    def from_rvs(e, depth=0):
+        for x in ast.walk(e):
+            if isinstance(x, ast.Call) and (dotted(x.func) or "").endswith("_truncnorm.rvs"):
+                return True
+            if depth < 3 and isinstance(x, ast.Name) and any(from_rvs(v, depth + 1) for v in sdefs.get(x.id, [])):
+                return True
+        return False
+    n_num = 0
+    for n in own_nodes(sf.node):
+        if isinstance(n, ast.Assign) and any(isinstance(t, ast.Subscript) and norm(t.value) == "ret" for t in n.targets) and from_rvs(n.value):
+            n_num += 1
+            v = n.value
+            ok = isinstance(v, ast.Call) and dotted(v.func) in ("np.clip", "numpy.clip") and len(v.args) >= 3 \
+                and norm(v.args[1]).endswith(".low") and norm(v.args[2]).endswith(".high") and norm(v.args[1])[:-4] == norm(v.args[2])[:-5]
+            ctx.check(ok, "R10.8", sf.short, f"truncnorm-sample-clipped:{norm(n.targets[0])}",
+                      message=f"sample() stores `{norm(v)[:70]}` for a numerical parameter without clipping it into [d.low, d.high]: when past values of the parameter "
+                              f"lie more than 100 sigma from the current domain (the same name suggested earlier with a far-away range) the sample is outside the domain - "
+                              f"suggest_float('x', 0, 1) returned 43974.86 after twelve trials in [0, 1e6]",
+                      how="np.clip(<sample>, d.low, d.high)", where=where(sf, n))
+    ctx.floor("R10.8", "numerical_sample_stores", n_num, 2)
+
